@@ -30,7 +30,9 @@ EXTRA = {"C05_B": ["C17"], "C15_B": ["C15", "C16"], "C16_B": ["C16", "C15"], "C1
          "C01_K": ["C01", "C03"], "C01_L": ["C01", "C15", "C03"], "C05_K": ["C05", "C15", "C17"], "C05_L": ["C05", "C17"],
          "C02_N": ["C02", "C13"], "C06_M": ["C06", "C13"], "C04_M": ["C04", "C13"], "C08_N": ["C08", "C13"], "C04_N": ["C04", "C14"],
          "C08_M": ["C08", "C14"], "C05_M": ["C05", "C15"], "C05_N": ["C05", "C03"], "C09_N": ["C09", "C15", "C16"], "C15_N": ["C15", "C16"],
-         "C20_M": ["C20", "C17"], "C13_M": ["C13", "C15"], "C01_M": ["C01", "C03"], "C01_N": ["C01", "C17"]}
+         "C20_M": ["C20", "C17"], "C13_M": ["C13", "C15"], "C01_M": ["C01", "C03"], "C01_N": ["C01", "C17"],
+         "C02_P": ["C02", "C15"], "C03_P": ["C03", "C15"], "C04_O": ["C04", "C08"], "C04_P": ["C04", "C15"], "C12_P": ["C12", "C15"],
+         "C15_P": ["C15", "C16"], "C17_O": ["C17", "C15"], "C19_P": ["C19", "C15"], "C08_O": ["C08", "C13"], "C05_O": ["C05", "C13"]}
 
 
 def sh(cmd):
@@ -95,7 +97,10 @@ def main():
                          "presence/absence combinations, exactly attained float values and two-object protocols" if mid[-1] in "KL" else "")
                       + ("; seventh round: the agent saw one-line summaries of A-L and a list of used-up mechanisms, was told to assume a very thorough "
                          "tester and to look for what such a tester still holds fixed (value-dependent Python/numpy semantics, vectorised rewrites, "
-                         "output formats, rare keywords, asymmetries, pairs of options, size guards)" if mid[-1] in "MN" else ""),
+                         "output formats, rare keywords, asymmetries, pairs of options, size guards)" if mid[-1] in "MN" else "")
+                      + ("; eighth round: the agent saw one-line summaries of A-N, was told what a systematic tester enumerates, and was pointed at the "
+                         "state of the interpreter around the call (numpy error state, warnings as errors, stdout, -O), module reloads, "
+                         "copied / pickled objects, equivalent entry points and arrangement extremes" if mid[-1] in "OP" else ""),
             "description_and_what_it_needs_to_manifest": desc.strip(),
             "confirmed_in_scratch_worktree": {
                 "procedure": "in /tmp/wt/%s: demo on clean tree, git apply patch, 42 stable tests (guard off), demo again, revert" % prop,
